@@ -31,6 +31,7 @@ package libinjection
 //@ spec unchangedH(h *h5State) bool = h.pos == old(h.pos) && h.state == old(h.state) && h.isClose == old(h.isClose)
 
 //@ func (*h5State).skipWhite
+//@   rel upeq result
 //@   requires wfH0(h)
 //@   modifies h.pos
 //@   ensures  [C02 C15 C17] wfH0(h) && old(h.pos) <= h.pos
@@ -44,6 +45,7 @@ package libinjection
 //@   loop 1 invariant [C09] $cost <= h.pos - old(h.pos)
 
 //@ func (*h5State).stateEOF
+//@   rel on
 //@   modifies nothing
 //@   rank     1
 //@   ensures  [C02 C15 C17] !result
@@ -56,6 +58,7 @@ package libinjection
 //@      (h.state == h.stateEOF  ==> h.tokenLen == h.len - p && h.pos == h.len) &&
 //@      (h.state == h.stateData ==> p + h.tokenLen < h.len && h.s[p + h.tokenLen] == '>' && h.pos == p + h.tokenLen + 1)
 //@ func (*h5State).stateBogusComment
+//@   rel on
 //@   requires wfH0(h)
 //@   modifies h.pos, h.state, h.tokenStart, h.tokenLen, h.tokenType
 //@   ensures  @mono old(h.pos) <= h.pos
@@ -72,6 +75,7 @@ package libinjection
 //@      (h.state == h.stateEOF  ==> h.tokenLen == h.len - p && h.pos == h.len) &&
 //@      (h.state == h.stateData ==> pctAt(h, p + h.tokenLen) && h.pos == p + h.tokenLen + 2)
 //@ func (*h5State).stateBogusComment2
+//@   rel on
 //@   requires wfH0(h)
 //@   modifies h.pos, h.state, h.tokenStart, h.tokenLen, h.tokenType
 //@   ensures  @mono old(h.pos) <= h.pos
@@ -92,6 +96,7 @@ package libinjection
 //@      (h.state == h.stateEOF  ==> h.tokenLen == h.len - p && h.pos == p) &&
 //@      (h.state == h.stateData ==> cdEndAt(h, p + h.tokenLen) && h.pos == p + h.tokenLen + 3)
 //@ func (*h5State).stateCData
+//@   rel on
 //@   requires wfH0(h)
 //@   modifies h.pos, h.state, h.tokenStart, h.tokenLen, h.tokenType
 //@   ensures  @mono old(h.pos) <= h.pos
@@ -126,6 +131,7 @@ package libinjection
 //@           (forall j in [p + h.tokenLen + 1, h.pos - 2): h.s[j] == 0) &&
 //@           (h.s[h.pos - 2] == '-' || h.s[h.pos - 2] == '!') && h.s[h.pos - 1] == '>')
 //@ func (*h5State).stateComment
+//@   rel on
 //@   requires wfM(h)
 //@   modifies h.pos, h.state, h.tokenStart, h.tokenLen, h.tokenType
 //@   ensures  @mono old(h.pos) <= h.pos
@@ -147,6 +153,7 @@ package libinjection
 //@      (h.state == h.stateEOF  ==> h.tokenLen == h.len - p && h.pos == p) &&
 //@      (h.state == h.stateData ==> p + h.tokenLen < h.len && h.s[p + h.tokenLen] == '>' && h.pos == p + h.tokenLen + 1)
 //@ func (*h5State).stateDoctype
+//@   rel on
 //@   requires wfM(h)
 //@   modifies h.pos, h.state, h.tokenStart, h.tokenLen, h.tokenType
 //@   ensures  @mono old(h.pos) <= h.pos
@@ -159,6 +166,7 @@ package libinjection
 //@      up(h.s[p+3]) == 'T' && up(h.s[p+4]) == 'Y' && up(h.s[p+5]) == 'P' && up(h.s[p+6]) == 'E'
 //@ spec cdataOpenAt(h *h5State, p int) bool = p + 7 <= h.len && h.s[p:p+7] == "[CDATA["
 //@ func (*h5State).stateMarkupDeclarationOpen
+//@   rel on
 //@   requires wfM(h)
 //@   modifies h.pos, h.state, h.tokenStart, h.tokenLen, h.tokenType
 //@   ensures  @mono old(h.pos) <= h.pos
@@ -172,6 +180,7 @@ package libinjection
 //@   cost     <= 3 * (cpos(h) - old(h.pos)) + 40
 
 //@ func (*h5State).stateSelfClosingStartTag
+//@   rel on
 //@   requires wfH(h) && h.pos >= 1 && midState(h)
 //@   modifies h.pos, h.state, h.tokenStart, h.tokenLen, h.tokenType
 //@   ensures  @mono old(h.pos) <= h.pos
@@ -185,6 +194,7 @@ package libinjection
 //@   cost     <= 3 * (cpos(h) - old(h.pos)) + ((old(h.pos) < h.len && h.s[old(h.pos)] != '>') ? 44 : 6)
 
 //@ func (*h5State).stateTagNameClose
+//@   rel on
 //@   requires wfM(h) && h.pos < h.len
 //@   modifies h.pos, h.state, h.tokenStart, h.tokenLen, h.tokenType, h.isClose
 //@   ensures  @mono old(h.pos) <= h.pos
@@ -198,6 +208,7 @@ package libinjection
 // ---- tag name: ends at the first white / '/' / '>' (NULs are part of the name)
 //@ spec tagNameEnd(c int) bool = isWS(c) || c == '/' || c == '>'
 //@ func (*h5State).stateTagName
+//@   rel on
 //@   requires wfM(h)
 //@   modifies h.pos, h.state, h.tokenStart, h.tokenLen, h.tokenType, h.isClose
 //@   ensures  @mono old(h.pos) <= h.pos
@@ -215,6 +226,7 @@ package libinjection
 //@   loop 1 invariant [C09] $cost <= 2 * (pos - old(h.pos))
 
 //@ func (*h5State).stateEndTagOpen
+//@   rel on
 //@   requires wfH(h) && midState(h)
 //@   modifies h.pos, h.state, h.tokenStart, h.tokenLen, h.tokenType, h.isClose
 //@   ensures  @mono old(h.pos) <= h.pos
@@ -225,6 +237,7 @@ package libinjection
 //@   cost     <= 3 * (cpos(h) - old(h.pos)) + 24
 
 //@ func (*h5State).stateTagOpen
+//@   rel on
 //@   requires wfH(h) && midState(h)
 //@   modifies h.pos, h.state, h.tokenStart, h.tokenLen, h.tokenType, h.isClose
 //@   ensures  @mono old(h.pos) <= h.pos
@@ -236,6 +249,7 @@ package libinjection
 
 // ---- data: text up to the first '<'
 //@ func (*h5State).stateData
+//@   rel on
 //@   requires wfM(h)
 //@   modifies h.pos, h.state, h.tokenStart, h.tokenLen, h.tokenType, h.isClose
 //@   ensures  @mono old(h.pos) <= h.pos
@@ -251,6 +265,7 @@ package libinjection
 //@   cost     <= 3 * (cpos(h) - old(h.pos)) + ((old(h.pos) < h.len && h.s[old(h.pos)] == '<') ? 80 : 10)
 
 //@ func (*h5State).stateAttributeValueNoQuote
+//@   rel on
 //@   requires wfM(h)
 //@   modifies h.pos, h.state, h.tokenStart, h.tokenLen, h.tokenType
 //@   ensures  @mono old(h.pos) <= h.pos
@@ -267,6 +282,7 @@ package libinjection
 //@   loop 1 invariant [C09] $cost <= 2 * (pos - old(h.pos))
 
 //@ func (*h5State).stateBeforeAttributeValue
+//@   rel on
 //@   requires wfH(h) && midState(h)
 //@   modifies h.pos, h.state, h.tokenStart, h.tokenLen, h.tokenType
 //@   ensures  @mono old(h.pos) <= h.pos
@@ -277,6 +293,7 @@ package libinjection
 //@   cost     <= 3 * (cpos(h) - old(h.pos)) + 12
 
 //@ func (*h5State).stateAfterAttributeName
+//@   rel on
 //@   requires wfH(h) && midState(h)
 //@   modifies h.pos, h.state, h.tokenStart, h.tokenLen, h.tokenType, h.isClose
 //@   ensures  @mono old(h.pos) <= h.pos
@@ -290,6 +307,7 @@ package libinjection
 // ---- attribute name: ends at the first white / '/' / '=' / '>' after its first byte
 //@ spec attrNameEnd(c int) bool = isWS(c) || c == '/' || c == '=' || c == '>'
 //@ func (*h5State).stateAttributeName
+//@   rel on
 //@   requires wfM(h) && h.pos < h.len
 //@   modifies h.pos, h.state, h.tokenStart, h.tokenLen, h.tokenType
 //@   ensures  @mono old(h.pos) <= h.pos
@@ -308,6 +326,7 @@ package libinjection
 //@   loop 1 invariant [C09] $cost <= 2 * (pos - old(h.pos))
 
 //@ func (*h5State).stateBeforeAttributeName
+//@   rel on
 //@   requires wfH(h) && midState(h)
 //@   modifies h.pos, h.state, h.tokenStart, h.tokenLen, h.tokenType
 //@   ensures  @mono old(h.pos) <= h.pos
@@ -323,6 +342,7 @@ package libinjection
 //@   loop 1 invariant [C09] $cost <= 3 * (h.pos - old(h.pos))
 
 //@ func (*h5State).stateAfterAttributeValueQuotedState
+//@   rel on
 //@   requires wfH(h) && midState(h)
 //@   modifies h.pos, h.state, h.tokenStart, h.tokenLen, h.tokenType
 //@   ensures  @mono old(h.pos) <= h.pos
@@ -336,6 +356,7 @@ package libinjection
 // ---- quoted value: from just after the opening quote (or offset 0 in a quote context)
 // to the first matching quote
 //@ func (*h5State).stateAttributeValueQuote
+//@   rel requires !(up(L(ch)) >= 'A' && up(L(ch)) <= 'Z')
 //@   requires wfM(h) && (h.pos == 0 || h.pos < h.len)
 //@   modifies h.pos, h.state, h.tokenStart, h.tokenLen, h.tokenType
 //@   ensures  @mono old(h.pos) <= h.pos
@@ -350,6 +371,7 @@ package libinjection
 //@   cost     <= cpos(h) - old(h.pos) + 3
 
 //@ func (*h5State).stateAttributeValueSingleQuote
+//@   rel on
 //@   requires wfM(h) && (h.pos == 0 || h.pos < h.len)
 //@   modifies h.pos, h.state, h.tokenStart, h.tokenLen, h.tokenType
 //@   ensures  @mono old(h.pos) <= h.pos
@@ -359,6 +381,7 @@ package libinjection
 //@   ensures  [C15] @safe h.state == h.stateEOF || h.state == h.stateAfterAttributeValueQuotedState
 //@   cost     <= cpos(h) - old(h.pos) + 5
 //@ func (*h5State).stateAttributeValueDoubleQuote
+//@   rel on
 //@   requires wfM(h) && (h.pos == 0 || h.pos < h.len)
 //@   modifies h.pos, h.state, h.tokenStart, h.tokenLen, h.tokenType
 //@   ensures  @mono old(h.pos) <= h.pos
@@ -368,6 +391,7 @@ package libinjection
 //@   ensures  [C15] @safe h.state == h.stateEOF || h.state == h.stateAfterAttributeValueQuotedState
 //@   cost     <= cpos(h) - old(h.pos) + 5
 //@ func (*h5State).stateAttributeValueBackQuote
+//@   rel on
 //@   requires wfM(h) && (h.pos == 0 || h.pos < h.len)
 //@   modifies h.pos, h.state, h.tokenStart, h.tokenLen, h.tokenType
 //@   ensures  @mono old(h.pos) <= h.pos
@@ -378,6 +402,7 @@ package libinjection
 //@   cost     <= cpos(h) - old(h.pos) + 5
 
 //@ func (*h5State).init
+//@   rel requires cdataFixed(L(input), R(input))
 //@   requires h.pos == 0 && h.tokenLen == 0 && !h.isClose
 //@   requires flags in {html5FlagsDataState, html5FlagsValueNoQuote, html5FlagsValueSingleQuote, html5FlagsValueDoubleQuote, html5FlagsValueBackQuote}
 //@   modifies h.s, h.len, h.state
@@ -388,6 +413,7 @@ package libinjection
 //@   cost     <= 2
 
 //@ func (*h5State).next
+//@   rel on
 //@   requires wfH(h)
 //@   modifies h.pos, h.state, h.tokenStart, h.tokenLen, h.tokenType, h.isClose
 //@   rank     12
@@ -424,6 +450,7 @@ package libinjection
 //@ spec svg3(s string) bool = up3(s, 'S', 'V', 'G')
 //@ spec xsl3(s string) bool = up3(s, 'X', 'S', 'L')
 //@ func isBlackTag
+//@   rel on
 //@   modifies nothing
 //@   justify  pureOfParams
 //@   defines  [C07] @isbt result == ISBT(s)
@@ -437,6 +464,7 @@ package libinjection
 //@   loop 1 invariant [C09] $cost <= 4 * len(s) + 64 * i + 8
 
 //@ func isBlackAttr
+//@   rel on
 //@   modifies nothing
 //@   justify  pureOfParams
 //@   defines  [C07] @isba result == ISBA(s)
@@ -458,6 +486,7 @@ package libinjection
 //@ specrec hexVal(a array, lo int, hi int) int = hi <= lo ? 0 : hexVal(a, lo, hi - 1) * 16 + hexDigit(sel(a, hi - 1))
 //@ specrec decVal(a array, lo int, hi int) int = hi <= lo ? 0 : decVal(a, lo, hi - 1) * 10 + (sel(a, hi - 1) - '0')
 //@ func htmlDecodeByteAt
+//@   rel upeq result0
 //@   modifies nothing
 //@   unfold   hexVal(arr(s), off(s) + 3, off(s) + 4)
 //@   unfold   hexVal(arr(s), off(s) + 3, off(s) + 3)
@@ -494,6 +523,8 @@ package libinjection
 //@   loop 2 invariant [C09] $cost <= i && (forall k in [1, i): s[k] != '&')
 
 //@ func htmlEncodeStartsWith
+//@   rel eq a, bs
+//@   rel upeq cb
 //@   modifies nothing
 //@   loop 1 invariant 0 <= pos && 0 <= length && pos + length == len(b)
 //@   loop 1 decreases length
@@ -506,6 +537,7 @@ package libinjection
 //@   loop 1 step [C07 C19] @prefix_kept forall j in [0, athead(len(bs))): bs[j] == athead(bs[j])
 
 //@ func isBlackURL
+//@   rel on
 //@   modifies nothing
 //@   justify  pureOfParams
 //@   defines  [C07 C19] @isbu result == ISBU(s)
@@ -515,6 +547,7 @@ package libinjection
 //@   loop 1 invariant [C09] $cost <= len(s) + 4 + (rangeindex + 1) * (8 * len(s) + 30)
 
 //@ func isXSS
+//@   rel requires cdataFixed(L(input), R(input))
 //@   justify  freshState
 //@   defines  [C13] @xv result == XV(input, flags)
 //@   requires flags in {html5FlagsDataState, html5FlagsValueNoQuote, html5FlagsValueSingleQuote, html5FlagsValueDoubleQuote, html5FlagsValueBackQuote}
@@ -530,6 +563,7 @@ package libinjection
 //@   loop 1 invariant [C09] $cost <= 100 * cpos(h5) + 40000 * potQ(h5) + 50
 
 //@ func IsXSS
+//@   rel requires cdataFixed(L(input), R(input))
 //@   modifies nothing
 //@   ensures  [C13] @or5 result == (XV(input, html5FlagsDataState) || XV(input, html5FlagsValueNoQuote) || XV(input, html5FlagsValueSingleQuote) ||
 //@                 XV(input, html5FlagsValueDoubleQuote) || XV(input, html5FlagsValueBackQuote))
@@ -638,6 +672,9 @@ package libinjection
 //@   loop 1 invariant -1 <= i && i < len(str) && 0 <= count && count <= len(str) - 1 - i
 //@   loop 1 decreases i + 1
 
+//@ spec cdataFixed(a string, b string) bool = forall j in [0, len(a) - 6): (a[j] == '[' && up(a[j+1]) == 'C' && up(a[j+2]) == 'D' && up(a[j+3]) == 'A' && up(a[j+4]) == 'T' && up(a[j+5]) == 'A' && a[j+6] == '[') ==>
+//@      (a[j+1] == b[j+1] && a[j+2] == b[j+2] && a[j+3] == b[j+3] && a[j+4] == b[j+4] && a[j+5] == b[j+5])
+//@ relfield h5State.s upeq cdataFixed
 //@ spec relInput(a string, b string) bool = (forall k in [0, len(a) - 1): (a[k] == '\\' || a[k] == '\'') ==> a[k+1] == b[k+1]) && (forall k in [0, len(a) - 1): a[k+1] == '\'' ==> a[k] == b[k])
 //@ spec dollarFixed(a string, b string) bool = (exists k in [0, len(a)): a[k] == '$') ==> (forall j in [0, len(a)): a[j] == b[j])
 //@ spec spFixed(a string, b string) bool = forall j in [0, len(a) - 10): (up(a[j]) == 'S' && up(a[j+1]) == 'P' && a[j+2] == '_' && up(a[j+3]) == 'P' && up(a[j+4]) == 'A' && up(a[j+5]) == 'S' &&
